@@ -36,16 +36,18 @@ def git_show(stage, path):
     return subprocess.check_output(["git", "show", f":{stage}:{path}"], cwd=ROOT, text=True)
 
 def merge_findings():
+    """3-way by signature: keep what either side has, drop what either side removed since base"""
     p = "known_findings.json"
     ours = json.loads(git_show(2, p)); theirs = json.loads(git_show(3, p)); base = json.loads(git_show(1, p))
     base_sigs = {f["signature"] for f in base["findings"]}
     our_sigs = {f["signature"] for f in ours["findings"]}
+    their_sigs = {f["signature"] for f in theirs["findings"]}
+    removed = (base_sigs - our_sigs) | (base_sigs - their_sigs)
     res = dict(ours)
+    res["findings"] = [f for f in ours["findings"] if f["signature"] not in removed]
     for f in theirs["findings"]:
-        if f["signature"] in our_sigs:
+        if f["signature"] in our_sigs or f["signature"] in removed:
             continue
-        if f["signature"] in base_sigs:
-            continue  # removed on main since the fork (fixed)
         res["findings"].append(f)
     for x in theirs.get("fixed", []):
         if x not in res["fixed"]:
